@@ -84,6 +84,9 @@ type H264PayCase struct {
 	DisableStapA bool       `json:"disable_stap_a"`
 	AVC          bool       `json:"avc"`
 	Calls        []H264Call `json:"calls"`
+	// SharedRx: every payload is delivered to H264Packet through one receive buffer that the next payload
+	// overwrites (the usual receive loop); fragments H264Packet keeps for later must be its own copies
+	SharedRx bool `json:"shared_rx,omitempty"`
 }
 
 // H264DecCase: units packetised by the independent encoder in a drawn legal way.
@@ -120,7 +123,11 @@ func checkC10Pay(r *run, c *H264PayCase) (CaseInfo, error) {
 	var want [][]byte
 	var pendSPS, pendPPS []byte
 	var got [][]byte
-	var f14Dropped [][]byte  // pairs the known defect F14 would drop (STAP-A larger than the MTU)
+	var f14Dropped [][]byte // pairs the known defect F14 would drop (STAP-A larger than the MTU)
+	var rx []byte
+	if c.SharedRx {
+		ci.class("one-receive-buffer")
+	}
 	var retained [][2][]byte // what H264Packet returned, kept as a receiver assembling a frame does (its inputs are never touched again)
 	for ci2, call := range c.Calls {
 		buf := call.buffer()
@@ -195,9 +202,22 @@ func checkC10Pay(r *run, c *H264PayCase) (CaseInfo, error) {
 				return ci, failf("%s: IsPartitionHead=%v, want %v", what, dep.IsPartitionHead(p), head)
 			}
 			got = append(got, units...)
-			out, err := dep.Unmarshal(clone(p))
+			arg := clone(p)
+			if c.SharedRx {
+				if len(rx) < len(p) {
+					rx = make([]byte, len(p)+64)
+				}
+				for k := range rx {
+					rx[k] = 0xEE // what the previous payload left is gone
+				}
+				arg = rx[:copy(rx, p)]
+			}
+			out, err := dep.Unmarshal(arg)
 			if err != nil {
 				return ci, failf("%s: H264Packet rejects the payloader's output: %v", what, err)
+			}
+			if c.SharedRx {
+				out = clone(out) // judged as returned; the retained-output check below is about H264Packet's own buffers
 			}
 			exp := h264rtp.Frame(units, c.AVC)
 			if !bytes.Equal(out, exp) {
@@ -356,7 +376,7 @@ func genNAL(t *rapid.T, mtu int, typ uint8) NALSpec {
 }
 
 func genH264PayCase(t *rapid.T) *H264PayCase {
-	c := &H264PayCase{DisableStapA: rapid.IntRange(0, 2).Draw(t, "nostap") == 0, AVC: genBool(t, "avc")}
+	c := &H264PayCase{DisableStapA: rapid.IntRange(0, 2).Draw(t, "nostap") == 0, AVC: genBool(t, "avc"), SharedRx: genBool(t, "sharedrx")}
 	c.MTU = uint16(biased(t, "mtu", 3, 1500, 3, 4, 5, 6, 7, 8, 9, 10, 16, 40, 100, 1188, 1200))
 	if rapid.IntRange(0, 19).Draw(t, "hugemtu") == 0 {
 		c.MTU = uint16(rapid.IntRange(1501, 65535).Draw(t, "mtuhuge"))
@@ -486,7 +506,7 @@ func genH264DecCase(t *rapid.T) *H264DecCase {
 	return c
 }
 
-const ruleC10 = "payloader: 1-4 Payload calls on one H264Payloader, each an Annex-B buffer (3-/4-byte start codes, optional leading zero byte) or one bare unit; NAL types 1-23 weighted to 1,5,6,7,8,9,12, NRI 0-3, sizes 2 bytes to several MTUs biased to MTU+-2 and 1+k*(MTU-2)+-2 (one case in 60 holds a unit of 65534-131073 bytes, parameter sets included), bodies free of start-code emulation with a non-zero last byte; SPS/PPS only as adjacent pairs (possibly split across calls); MTU 3-1500 biased to 3-10; STAP-A on/off; AVC on/off. Oracle: independent RFC 6184 parser/reassembler on the output (single | STAP-A | FU-A shapes, S/E placement, >=2 fragments, R=0, no empty fragment, <= MTU, pair as one STAP-A or individually, IsPartitionHead on first payloads only, byte-exact units in order minus AUD/filler) and H264Packet output = reference depacketizer output per payload, every output kept and compared again after the whole stream was decoded. decoder: streams from the independent encoder (single, STAP-A of 1-5 units, FU-A with arbitrary fragment sizes incl. 1-byte and empty ones, the start fragment included). Non-trivial = stream with an FU-A train or a STAP-A; distinct = FNV-64 of the JSON case"
+const ruleC10 = "payloader: 1-4 Payload calls on one H264Payloader, each an Annex-B buffer (3-/4-byte start codes, optional leading zero byte) or one bare unit; NAL types 1-23 weighted to 1,5,6,7,8,9,12, NRI 0-3, sizes 2 bytes to several MTUs biased to MTU+-2 and 1+k*(MTU-2)+-2 (one case in 60 holds a unit of 65534-131073 bytes, parameter sets included), bodies free of start-code emulation with a non-zero last byte; SPS/PPS only as adjacent pairs (possibly split across calls); MTU 3-1500 biased to 3-10; STAP-A on/off; AVC on/off. Oracle: independent RFC 6184 parser/reassembler on the output (single | STAP-A | FU-A shapes, S/E placement, >=2 fragments, R=0, no empty fragment, <= MTU, pair as one STAP-A or individually, IsPartitionHead on first payloads only, byte-exact units in order minus AUD/filler) and H264Packet output = reference depacketizer output per payload (payloads delivered as private copies or, half of the cases, through one receive buffer that is wiped before each delivery), every output kept and compared again after the whole stream was decoded. decoder: streams from the independent encoder (single, STAP-A of 1-5 units, FU-A with arbitrary fragment sizes incl. 1-byte and empty ones, the start fragment included). Non-trivial = stream with an FU-A train or a STAP-A; distinct = FNV-64 of the JSON case"
 
 func TestC10(t *testing.T) {
 	r := begin(t, "C10", "exploration", ruleC10)
